@@ -28,6 +28,8 @@ SYSTEMS = {
     'agnostic': ('agnostic', {'domains': 2, 'window': 2}),
     'hyp_cluster': ('hyp_cluster', {'clusters': 2}),
     'apfl': ('apfl', {}),
+    # the batching seed given as a NumPy integer instead of a Python int
+    'fed_avg_np_seed': ('fed_avg', {'hp': (2, 1, None, 'int64:0')}),
 }
 
 
